@@ -14,3 +14,4 @@ import EcModel.Props.C13
 import EcModel.Props.C14
 import EcModel.Props.C13Config
 import EcModel.TxWake
+import EcModel.Props.C19Impls
